@@ -82,6 +82,10 @@ class _Node(nn.Module):
   # attributes in more than one field, declaration order != sorted order
   peer: Any = None
 
+  def scaled(self, x, k=2.0):
+    """A second entry point (apply(..., method=...))."""
+    return self(x) * k
+
   def all_shared(self):
     return tuple(self.shared) + ((self.peer,) if self.peer is not None else ())
 
